@@ -90,7 +90,7 @@ def families(ctx, rnd, thorough, which):
         for i in range(200 if thorough else 24):
             scs.append(logix_rw.session(rnd, 2000 + i, prefix="inv", n_calls=4, max_reqs=8, invalid_rate=0.4))
     if "inject" in which:
-        scs += logix_rw.inject_sessions(rnd, 300 if thorough else 40)
+        scs += logix_rw.inject_sessions(rnd, 300 if thorough else 24)
     return scs
 
 
